@@ -5,7 +5,7 @@ namespace Driver.Opt
 /-! requests with `"model":"opt"`:
 
   common fields  `spec`: [{"name","type":"bool|int|str|list","default":VAL,"short":"x"|"","long","inverse","choices":[VAL],"env_var":str|null}]
-                 `env`: [[name,value]]   `ini`: [[key, {"raw":str} | {"val":VAL}]]   `dodo`: [[key, VAL]]   `argv`: [str]
+                 `env`: [[name,value]]   `ini`, `glob`: [[key, {"raw":str} | {"val":VAL}]] (command/task section, GLOBAL section)   `dodo`: [[key, VAL]]   `argv`: [str]
                  VAL = null | bool | int | str | [str]
   `op`:
    * "parse"    -> parse twice with the same parser object (state threaded): {"wf","res","res2","defaults","defaults2"}
@@ -63,8 +63,8 @@ def cfgOf (j : Json) : Option CfgVal :=
   if jhas j "raw" then some (.raw (s2l (jstr j "raw")))
   else (valOf (jobj j "val")).map CfgVal.typed
 
-def iniOf (j : Json) : Option (List (Str × CfgVal)) :=
-  (jarr j "ini").mapM fun kv =>
+def iniOf (j : Json) (field : String) : Option (List (Str × CfgVal)) :=
+  (jarr j field).mapM fun kv =>
     match asArr kv with
     | [k, v] => (cfgOf v).map fun c => (s2l (asStr k), c)
     | _ => none
@@ -119,8 +119,9 @@ def exceptAll (spec : List Opt) (f : Opt → Except Err Val) : Option (List (Str
   spec.mapM fun o => match f o with | .ok v => some (o.name, v) | .error _ => none
 
 def handle (j : Json) : Json :=
-  match (jarr j "spec").mapM optOf, iniOf j, dodoOf j with
-  | some spec, some ini, some dodo =>
+  match (jarr j "spec").mapM optOf, iniOf j "ini", iniOf j "glob", dodoOf j with
+  | some spec, some sec, some glob, some dodo =>
+    let ini := mergeCfg glob sec
     let env := envOfJson j
     let argv := (jstrs j "argv").map s2l
     let names := dedup (spec.map (·.name) ++ dodo.map (·.1))
@@ -159,6 +160,6 @@ def handle (j : Json) : Json :=
                   ("short", mkArr ((shortNames spec).map fun c => Json.str (String.singleton c))),
                   ("long", mkArr ((longNames spec).map fun n => Json.str (l2s n)))]
     | _ => Driver.err "bad op"
-  | _, _, _ => Driver.err "bad spec/ini/dodo"
+  | _, _, _, _ => Driver.err "bad spec/ini/dodo"
 
 end Driver.Opt
